@@ -225,7 +225,9 @@ def check_setter_order(P, R, func, stmts, label, rule):
         if not same:
             continue
         for tn, tt in same:
-            first = du.cfg.dominates(tn, vn) and not du.cfg.reach_avoiding(vn, tn)
+            if not (du.cfg.reach_avoiding(tn, vn) or du.cfg.reach_avoiding(vn, tn)):
+                continue  # on different branches: never both executed
+            first = not du.cfg.reach_avoiding(vn, tn)
             R.check(
                 first, rule, func.key, f"{label}: {src(tt)} before {src(vt)}",
                 "floors in force when the variances are clamped",
